@@ -250,14 +250,14 @@ package ledger
 //@ func (ledger *FinalityLedger[T]) Commit()
 //@   nopanic
 //@   requires wf_final(ledger) && keyed(ledger.finalityItems)
-//@   modifies treehas, treeval, treever, histhas, histval,
+//@   modifies treehas, treeval, treever, histhas, histval, dblatest,
 //@            ledger.SimpleLedger.cachedItems.gotItems, ledger.SimpleLedger.cachedItems.updatedItems, ledger.SimpleLedger.cachedItems.removedKeys,
 //@            ledger.finalityItems.updatedItems, ledger.finalityItems.removedKeys, mapof(ledger.finalityItems.gotItems)
 //@   allocates LedgerKeyList
 //@   ensures forall t :: t != ledger.SimpleLedger.tree ==> treehas[t] == old(treehas[t]) && treeval[t] == old(treeval[t]) && treever[t] == old(treever[t])   [C18]
 //@   ensures result2 == nil ==> result1 == old(treever[ledger.SimpleLedger.tree]) + 1 && treever[ledger.SimpleLedger.tree] == result1   [C18]
-//@   ensures result2 == nil ==> histhas[ledger.SimpleLedger.tree][result1] == treehas[ledger.SimpleLedger.tree] && histval[ledger.SimpleLedger.tree][result1] == treeval[ledger.SimpleLedger.tree]   [C18]
-//@   ensures result2 == nil ==> (forall v :: v != result1 ==> histhas[ledger.SimpleLedger.tree][v] == old(histhas[ledger.SimpleLedger.tree][v]) && histval[ledger.SimpleLedger.tree][v] == old(histval[ledger.SimpleLedger.tree][v]))   [C18]
+//@   ensures result2 == nil ==> histhas[ledger.SimpleLedger.db][result1] == treehas[ledger.SimpleLedger.tree] && histval[ledger.SimpleLedger.db][result1] == treeval[ledger.SimpleLedger.tree] && dblatest[ledger.SimpleLedger.db] == result1   [C18]
+//@   ensures result2 == nil ==> (forall v :: v != result1 ==> histhas[ledger.SimpleLedger.db][v] == old(histhas[ledger.SimpleLedger.db][v]) && histval[ledger.SimpleLedger.db][v] == old(histval[ledger.SimpleLedger.db][v]))   [C18]
 //@   ensures result2 == nil ==> (forall k :: old(has(ledger.finalityItems.updatedItems, k)) ==>
 //@           treehas[ledger.SimpleLedger.tree][bytesof(k)] && treeval[ledger.SimpleLedger.tree][bytesof(k)] == itemenc[old(ledger.finalityItems.updatedItems[k])])   [C18]
 //@   ensures result2 == nil ==> (forall c :: !old(has(ledger.finalityItems.updatedItems, key32(c))) || bytesof(key32(c)) != c ==>
@@ -283,3 +283,29 @@ package ledger
 //@           treehas[ledger.SimpleLedger.tree][c] == (old(treehas[ledger.SimpleLedger.tree][c]) && !old(removed_bytes(ledger.finalityItems, c))) &&
 //@           treeval[ledger.SimpleLedger.tree][c] == old(treeval[ledger.SimpleLedger.tree][c])
 //@   loop 2: invariant forall k :: has(ledger.finalityItems.updatedItems, k) <==> (exists i :: 0 <= i && i < len(keys) && keys[i] == k)
+
+//@ func (ledger *SimpleLedger[T]) ImmutableLedgerAt(n, cacheSize)
+//@   nopanic
+//@   requires ledger != nil
+//@   modifies treehas, treeval, treever, treedb
+//@   ensures forall t :: !fresh(t) ==> treehas[t] == old(treehas[t]) && treeval[t] == old(treeval[t]) && treever[t] == old(treever[t]) && treedb[t] == old(treedb[t])   [C18,C19]
+//@   ensures result1 == nil ==> result0 != nil && fresh(result0) && result0.tree != nil && fresh(result0.tree) && wf_mem(result0.cachedItems) && fresh(result0.cachedItems)   [C18,C19]
+//@   ensures result1 == nil ==> (forall k :: !has(result0.cachedItems.gotItems, k) && !has(result0.cachedItems.updatedItems, k)) && result0.cachedItems.removedKeys == nil   [C18,C19]
+//@   ensures result1 == nil && n > 0 ==> treehas[result0.tree] == histhas[ledger.db][n] && treeval[result0.tree] == histval[ledger.db][n] && treever[result0.tree] == n   [C18,C19]
+//@   ensures result1 == nil && n <= 0 ==> treehas[result0.tree] == histhas[ledger.db][dblatest[ledger.db]] && treeval[result0.tree] == histval[ledger.db][dblatest[ledger.db]]   [C18,C19]
+//@   ensures n > dblatest[ledger.db] ==> result1 != nil                                                       [C18,C19]
+
+//@ func newMemItems()
+//@   nopanic
+//@   ensures result != nil && fresh(result) && wf_mem(result) && fresh(result.gotItems) && fresh(result.updatedItems)   [C18]
+//@   ensures (forall k :: !has(result.gotItems, k) && !has(result.updatedItems, k)) && result.removedKeys == nil        [C18]
+
+//@ func (ledger *FinalityLedger[T]) ImmutableLedgerAt(n, cacheSize)
+//@   nopanic
+//@   requires ledger != nil
+//@   modifies treehas, treeval, treever, treedb
+//@   ensures forall t :: !fresh(t) ==> treehas[t] == old(treehas[t]) && treeval[t] == old(treeval[t]) && treever[t] == old(treever[t]) && treedb[t] == old(treedb[t])   [C18,C19]
+//@   ensures result1 == nil ==> result0 != nil && fresh(result0) && istype(result0, ptr(SimpleLedger))       [C18,C19]
+//@   ensures result1 == nil && n > 0 ==> treehas[as(result0, ptr(SimpleLedger)).tree] == histhas[ledger.SimpleLedger.db][n] && treeval[as(result0, ptr(SimpleLedger)).tree] == histval[ledger.SimpleLedger.db][n]   [C18,C19]
+//@   ensures result1 == nil ==> fresh(as(result0, ptr(SimpleLedger)).tree)                                   [C18,C19]
+//@   ensures n > dblatest[ledger.SimpleLedger.db] ==> result1 != nil                                          [C18,C19]
